@@ -281,6 +281,9 @@ func (p *Pkg) resolveTypeErr(e ast.Expr) (*T, error) {
 			}
 			return nil, fmt.Errorf("interface type %s (only Term, Op, UnaryOpFunc, BinaryOpFunc are represented)", e.Name)
 		}
+		if st, ok := ts.Type.(*ast.StructType); ok && structFieldCount(st) >= 2 {
+			return p.resolveRec(e.Name, st)
+		}
 		u, err := p.resolveTypeErr(ts.Type)
 		if err != nil {
 			return nil, fmt.Errorf("type %s: %v", e.Name, err)
@@ -362,6 +365,73 @@ func (p *Pkg) resolveTypeErr(e ast.Expr) (*T, error) {
 		return p.resolveTypeErr(e.X)
 	}
 	return nil, fmt.Errorf("type expression %T", e)
+}
+
+func structFieldCount(st *ast.StructType) int {
+	n := 0
+	if st.Fields == nil {
+		return 0
+	}
+	for _, f := range st.Fields.List {
+		if len(f.Names) == 0 {
+			n++
+		}
+		n += len(f.Names)
+	}
+	return n
+}
+
+// resolveRec: a struct with several fields is represented only when the table recReps
+// names a record of the model for it, and the declaration in the source has exactly
+// the fields of the table (names, type expressions, order; no embedded field, no tag).
+func (p *Pkg) resolveRec(name string, st *ast.StructType) (*T, error) {
+	rep := recFor(name)
+	if rep == nil {
+		return nil, fmt.Errorf("struct type %s with several fields (only the structs of the table recReps are represented)", name)
+	}
+	if p.recMemo == nil {
+		p.recMemo = map[string]*T{}
+	}
+	if t, ok := p.recMemo[name]; ok {
+		return t, nil
+	}
+	type fld struct {
+		name string
+		typ  ast.Expr
+	}
+	var got []fld
+	for _, f := range st.Fields.List {
+		if len(f.Names) == 0 {
+			return nil, fmt.Errorf("struct type %s: embedded field in a struct represented by the record %s", name, rep.coq)
+		}
+		if f.Tag != nil {
+			return nil, fmt.Errorf("struct type %s: field tag", name)
+		}
+		for _, n := range f.Names {
+			got = append(got, fld{n.Name, f.Type})
+		}
+	}
+	var gs, ws []string
+	for _, g := range got {
+		gs = append(gs, g.name+" "+typeStr(g.typ))
+	}
+	for _, w := range rep.fields {
+		ws = append(ws, w.goName+" "+w.goType)
+	}
+	if strings.Join(gs, "; ") != strings.Join(ws, "; ") {
+		return nil, fmt.Errorf("struct type %s: the fields in the source {%s} differ from those of the model's record %s {%s}",
+			name, strings.Join(gs, "; "), rep.coq, strings.Join(ws, "; "))
+	}
+	t := &T{K: KRec, Name: name, Ctor: rep.ctor, Coq: rep.coq}
+	for i, g := range got {
+		ft, err := p.resolveTypeErr(g.typ)
+		if err != nil {
+			return nil, fmt.Errorf("struct type %s, field %s: %v", name, g.name, err)
+		}
+		t.Fields = append(t.Fields, RecField{name: g.name, typ: ft, proj: rep.fields[i].proj})
+	}
+	p.recMemo[name] = t
+	return t, nil
 }
 
 // typeStr prints a type expression (for the comparison of method signatures).
